@@ -74,6 +74,10 @@ def run_case(scn):
     t = record.run_solver(scn, listener=False, problem=prob, after_step=after_step)
     if t.fp_exhausted:
         return {"violations": [], "obs": {"fp_domain_exhausted": 1}, "skip": "fp-domain-exhausted"}
+    if scn["N"] == 1 and record.image_space_degenerate(t.solver, scn["lower"], scn["upper"]):
+        # iteration batches (which ignore eps) drove a trial closer to its neighbour / to the box boundary than the spacing of doubles
+        # in the box's coordinates: outside the floating-point domain, checked on the actual partition, not assumed
+        return {"violations": [], "obs": {"fp_domain_exhausted_in_box_coordinates": 1}, "skip": "fp-domain-exhausted-in-box-coordinates"}
     viol = list(stepviol[:4])
     lo, hi = scn["lower"], scn["upper"]
     if t.swallowed or t.aborted:
